@@ -31,12 +31,28 @@ for tgt, pat in ((det2, '/tmp/mx/r2-*.txt'), (old2, '/tmp/mx/old-*.txt')):
                 if '=' in kv:
                     c, rc = kv.split('=')
                     d[c] = int(rc)
+det3, old3 = {}, {}
+for tgt, pat in ((det3, '/tmp/mx/r3-*.txt'), (old3, '/tmp/mx/old3-*.txt')):
+    for f in sorted(glob.glob(pat)):
+        for line in open(f):
+            parts = line.split()
+            if not parts or '/' not in parts[0]:
+                continue
+            key = parts[0].replace('/m', '-s')
+            d = tgt.setdefault(key, {})
+            for kv in parts[1:]:
+                if '=' in kv:
+                    c, rc = kv.split('=')
+                    d[c] = int(rc)
 n = 0
-for d in sorted(glob.glob('/tmp/seed/out/C*/m*/')) + sorted(glob.glob('/tmp/seed/out2/C*/m*/')):
+for d in sorted(glob.glob('/tmp/seed/out/C*/m*/')) + sorted(glob.glob('/tmp/seed/out2/C*/m*/')) + sorted(glob.glob('/tmp/seed/out3/C*/m*/')):
     pid, k = d.rstrip('/').split('/')[-2:]
     round2 = '/out2/' in d
+    round3 = '/out3/' in d
     if round2:
         k = k.replace('m', 'd')
+    if round3:
+        k = k.replace('m', 's')
     conf = os.path.join(d, 'confirm.json')
     if not os.path.exists(conf):
         continue
@@ -53,14 +69,15 @@ for d in sorted(glob.glob('/tmp/seed/out/C*/m*/')) + sorted(glob.glob('/tmp/seed
         am = json.load(open(os.path.join(d, 'meta.json')))
     except Exception:
         am = {}
-    checks = det2.get(sid, {}) if round2 else det.get(sid, {})
+    checks = det2.get(sid, {}) if round2 else (det3.get(sid, {}) if round3 else det.get(sid, {}))
     meta = {
         "id": sid,
         "property": pid,
         "summary": am.get("summary", ""),
         "needs_to_manifest": am.get("needs_to_manifest", ""),
         "clause_violated": am.get("clause_violated", ""),
-        "round": 2 if round2 else 1,
+        "round": 2 if round2 else (3 if round3 else 1),
+        "kind": am.get("kind"),
         "minimal_trigger_size": am.get("minimal_trigger_size"),
         "origin": "written by a fresh sub-agent that saw only the property text and a scratch worktree of /repo (nothing from /verif)" + ("; round 2: asked for changes that cannot manifest on inputs with <=3 nodes, <=2 hyperedges, interfaces <=2, <=3 steps" if round2 else ""),
         "confirmed_in_scratch_worktree": {
@@ -80,6 +97,12 @@ for d in sorted(glob.glob('/tmp/seed/out/C*/m*/')) + sorted(glob.glob('/tmp/seed
     }
     if round2:
         meta["detected_by_own_check_before_round2_strengthening"] = old2.get(sid, {}).get(pid) == 1
+    if round3:
+        meta["origin"] += "; round 3: asked for two cooperating sites (K1), violations that need a history (K2), wrong failure reporting (K3), right only up to something weaker than stated (K4), secondary entry points (K5)"
+        meta["detected_by_own_check_of_revision_dc1b757"] = old3.get(sid, {}).get(pid) == 1
+        for extra in ("site_a_only.diff", "site_b_only.diff"):
+            if os.path.exists(os.path.join(d, extra)):
+                shutil.copy(os.path.join(d, extra), os.path.join(out, extra))
     json.dump(meta, open(os.path.join(out, 'meta.json'), 'w'), indent=1)
     n += 1
 print("kept", n)
